@@ -74,6 +74,10 @@ LEN3_MENU = [
     [["funcS", "rectB", "rectA"], [False, True, True]],
     [["del", "rectA", "rectB"], [True, True, False]],
     [["rectB", "del", "func"], [True, False, False]],
+    # two DIFFERENT function lists with equal parameter counts next to a mapper (cross blocks between function lists)
+    [["func", "rectA", "funcB"], [False, True, False]],
+    [["funcB", "func", "del"], [False, False, True]],
+    [["rectB", "funcS", "func"], [True, False, True]],
 ]
 SMALL_MENU = [
     [["rectA"], [True]],
@@ -195,6 +199,13 @@ def run_case(case):
                 results[name] = (s, mrd)
                 v.ok(mrd.shape == (fx["n"],) and np.allclose(mrd, B @ s, rtol=1e-8, atol=1e-9 * max(1.0, np.abs(mrd).max())),
                      "%s:mapped_reconstructed_data%s" % (fam, tagsfx), lambda: "%s maxdiff=%s" % (name, dom.maxdiff(mrd, B @ s)))
+                # the normal-equation quantities must still report the same values after the system has been solved
+                D2 = np.array(inv.data_vector, dtype=float)
+                F2 = np.array(inv.curvature_matrix, dtype=float)
+                v.ok(D2.shape == D_ref.shape and np.allclose(D2, D_ref, rtol=1e-9, atol=1e-9 * scaleD), "%s:data_vector:after-solve" % fam,
+                     lambda: "%s maxdiff=%s" % (name, dom.maxdiff(D2, D_ref)))
+                v.ok(F2.shape == F_ref.shape and np.allclose(F2, F_ref, rtol=1e-9, atol=1e-9 * scaleF), "%s:curvature_matrix:after-solve" % fam,
+                     lambda: "%s maxdiff=%s" % (name, dom.maxdiff(F2, F_ref)))
             except aa.exc.InversionException:
                 results[name] = None
     # formalism agreement on the solution
